@@ -1,11 +1,11 @@
 SPECIFICATION Spec
 CONSTANTS
   NC = 7
-  Driven = {1,2,3}
-  Targets = {1,2,3,4}
+  Driven = {1,2}
+  Targets = {1,2,3}
   AliasTargets = {}
-  MaxNum = 2
-  MaxOps = 7
+  MaxNum = 3
+  MaxOps = 8
   Known = {}
 VIEW View
 INVARIANT Inv
